@@ -982,7 +982,8 @@ class VPick(View):
                 yield [tm, nc, c, pre + [['vad', 0], ['vrd', 0], ['vad', 0], ['ac', 0, 'num'], ['rc', 0, 1]]]
                 yield [tm, nc, c, pre + [['vad', 0], ['rem', 0], ['app', 0], ['vad', 0], ['ro', 0], ['ac', 0, 'num']]]
                 yield [tm, nc, c, pre + [['vad', 0], ['vad', 1], ['vrd', 0], ['vrd', 1], ['vad', 1], ['ac', 1, 'num'], ['rn', 1, 0]]]
-        for seq in itertools.product(VP_REFILL_ALPHA, repeat=2 if tier == "quick" else 3):
+        va = [o for o in VP_REFILL_ALPHA if tier != "quick" or o != ['ac', 1, 'cat']]
+        for seq in itertools.product(va, repeat=2 if tier == "quick" else 3):
             seq = [list(o) for o in seq]
             for pos in range(len(seq) + 1):
                 for empty in VP_EMPTY:
@@ -1444,7 +1445,8 @@ class Combo(Family):
                 yield [CD, idx, [['ha', 0], ['hc'], ['hm', 0], ['sel', 2], ['rc', 0, 0]], has_dc]
                 yield [CD, idx, [['hm', 0, 1], ['hm'], ['hm', 1], ['do'], ['ro', 1], ['dc']], has_dc]
         for has_dc in (False, True):
-            for seq in itertools.product(COMBO_REFILL_ALPHA, repeat=2 if tier == "quick" else 3):
+            ra = [o for o in COMBO_REFILL_ALPHA if tier != "quick" or o not in (['rc', 0, 2], ['ro', 1])]
+            for seq in itertools.product(ra, repeat=2 if tier == "quick" else 3):
                 seq = [list(o) for o in seq]
                 for pos in range(len(seq) + 1):
                     for ph in COMBO_REFILL_PHASES:
@@ -1526,7 +1528,7 @@ class ComboRandom(Combo):
     budget_share = 0.5
 
     def cases(self, tier, rng):
-        n = 2400 if tier == "quick" else 60000
+        n = 2200 if tier == "quick" else 60000
         for i in range(n):
             # a third of the histories on the standard datasets, the rest on random templates
             tm = ['std'] * CD if i % 3 == 0 else [rng.choice(TMPLS) for _ in range(CD)]
